@@ -26,7 +26,7 @@ import (
 )
 
 type c14Input struct {
-	Kind string `json:"kind"` // plain_tcp | plain_udp | pickle_tcp
+	Kind string `json:"kind"` // plain_tcp | plain_udp | pickle_tcp | pickle_udp
 	B    string `json:"b"`    // hex
 }
 
@@ -241,23 +241,27 @@ func c14Child() {
 		cn := dial(adminAddr)
 		if cn != nil {
 			buf := make([]byte, 65536)
-			readAll := func(d time.Duration) string {
+			// the relay writes this line before it reads each command: it ends the reply to the previous one
+			const prompt = "inspecting status is fine, but making changes on-the-fly is an experimental feature\n"
+			readReply := func(d time.Duration) (string, bool) {
 				var acc []byte
+				deadline := time.Now().Add(d)
 				for {
-					cn.SetReadDeadline(time.Now().Add(d))
+					if i := strings.Index(string(acc), prompt); i >= 0 {
+						return string(acc[:i]), true
+					}
+					cn.SetReadDeadline(deadline)
 					n, err := cn.Read(buf)
 					acc = append(acc, buf[:n]...)
 					if err != nil {
-						return string(acc)
+						return strings.Replace(string(acc), prompt, "", -1), false
 					}
-					d = 30 * time.Millisecond
 				}
 			}
-			readAll(300 * time.Millisecond) // banner
+			readReply(2000 * time.Millisecond) // the first prompt
 			for _, cmd := range c.Cmds {
 				cn.Write([]byte(fix(cmd)))
-				r := readAll(4000 * time.Millisecond)
-				r = strings.Replace(r, "inspecting status is fine, but making changes on-the-fly is an experimental feature\n", "", -1)
+				r, _ := readReply(4000 * time.Millisecond)
 				if len(r) > 300 {
 					r = r[:300]
 				}
@@ -304,8 +308,12 @@ func c14Child() {
 				cn.Write(b)
 				cn.Close()
 			}
-		case "plain_udp":
-			if cn, err := net.Dial("udp", plainAddr); err == nil {
+		case "plain_udp", "pickle_udp":
+			addr := plainAddr
+			if in.Kind == "pickle_udp" {
+				addr = pickleAddr
+			}
+			if cn, err := net.Dial("udp", addr); err == nil {
 				cn.Write(b)
 				cn.Close()
 			}
